@@ -151,3 +151,75 @@ def count_loc_ws(n1, s1, n2, s2, pre, line, ws, post):
     use(loc_ws, pre, line, ws, post)
     return call(COUNT_LOC, n1, s1) == call(COUNT_LOC, n2, s2)
 
+
+
+# ================================================================== suppression scan: shift lemmas (contracts of c04_ignore.py)
+def shifted(v, k):
+    """The same finding, k lines further down."""
+    return mk(ViolationT, rule_id=v.rule_id, file_path=v.file_path, line=v.line + k, column=v.column, message=v.message,
+              severity=v.severity, suggestion=v.suggestion)
+
+
+@lemma(props=["C13"], types=dict(pre=SeqOf(Str), ins=SeqOf(Str), post=SeqOf(Str), n=Int),
+       name="prev-line-lookup-shifts-with-lines-inserted-above")
+def get_prev_line_shift(pre, ins, post, n):
+    """_get_prev_line is index-relative: inserting lines at or above line n-1 moves the looked-up line along."""
+    if n - 2 < len(pre):
+        return True
+    return call(IG + "_get_prev_line", pre + ins + post, n + len(ins)) == call(IG + "_get_prev_line", pre + post, n)
+
+
+@lemma(props=["C13"], types=dict(pre=SeqOf(Str), ins=SeqOf(Str), post=SeqOf(Str), v=ViolationT),
+       name="same-line-suppression-shifts-with-lines-inserted-above")
+def same_line_shift(pre, ins, post, v):
+    """A finding at line n is suppressed by a same-line directive in `pre + post` iff the finding moved to line
+    n + len(ins) is suppressed in `pre + ins + post`, for any lines inserted above line n (their content is irrelevant)."""
+    if v.line - 1 < len(pre):
+        return True
+    reveal(same_line_ignores, pre + post, v.line, v.rule_id)
+    reveal(same_line_ignores, pre + ins + post, v.line + len(ins), v.rule_id)
+    return call(IG + "_check_current_line_ignore", pre + ins + post, shifted(v, len(ins))) == \
+        call(IG + "_check_current_line_ignore", pre + post, v)
+
+
+@lemma(props=["C13"], types=dict(pre=SeqOf(Str), ins=SeqOf(Str), post=SeqOf(Str), v=ViolationT),
+       name="next-line-suppression-shifts-with-lines-inserted-above-the-directive")
+def prev_line_shift(pre, ins, post, v):
+    """Same for `ignore-next-line`: the insertion must be above the directive line n-1 (a line inserted BETWEEN the
+    directive and its target changes what the directive applies to -- not a meaning-preserving edit)."""
+    if v.line - 2 < len(pre):
+        return True
+    reveal(prev_line_ignores, pre + post, v.line, v.rule_id)
+    reveal(prev_line_ignores, pre + ins + post, v.line + len(ins), v.rule_id)
+    return call(IG + "_check_prev_line_ignore", pre + ins + post, shifted(v, len(ins))) == \
+        call(IG + "_check_prev_line_ignore", pre + post, v)
+
+
+# ------------------------------------------------------------------ block scan (ignore-start ... ignore-end)
+from contracts.c04_ignore import block_scan, block_ignores, is_start, is_end, start_rules  # noqa: E402
+
+
+@lemma(props=["C13"], types=dict(rest=SeqOf(Str), i=Int, in_block=Bool, rules=SeqOf(Str), vline=Int, rule_id=Str),
+       name="block-scan-depends-on-line-numbers-only-relatively")
+def block_index_shift(rest, i, in_block, rules, vline, rule_id):
+    """Renumbering the remaining lines and the finding by the same offset does not change the block verdict."""
+    if len(rest) == 0:
+        return block_scan(rest, i + 1, in_block, rules, vline + 1, rule_id) == block_scan(rest, i, in_block, rules, vline, rule_id)
+    ih(block_index_shift, rest[1:], i + 1, True, start_rules(rest[0]), vline, rule_id)
+    ih(block_index_shift, rest[1:], i + 1, False, [], vline, rule_id)
+    ih(block_index_shift, rest[1:], i + 1, in_block, rules, vline, rule_id)
+    return block_scan(rest, i + 1, in_block, rules, vline + 1, rule_id) == block_scan(rest, i, in_block, rules, vline, rule_id)
+
+
+@lemma(props=["C13"], types=dict(line=Str, lines=SeqOf(Str), v=ViolationT),
+       name="block-suppression-shifts-with-a-directive-free-line-inserted-at-the-top")
+def block_top_shift(line, lines, v):
+    """A line that is neither an ignore-start nor an ignore-end marker, inserted as the new first line of the file,
+    shifts block suppression by one line (apply repeatedly for several lines). Insertion in the MIDDLE of the file is
+    not covered by a lemma here."""
+    if is_start(line) or is_end(line) or v.line < 1:
+        return True
+    use(block_index_shift, lines, 1, False, [], v.line, v.rule_id)
+    reveal(block_ignores, [line] + lines, v.line + 1, v.rule_id)
+    reveal(block_ignores, lines, v.line, v.rule_id)
+    return call(IG + "_check_block_ignore", [line] + lines, shifted(v, 1)) == call(IG + "_check_block_ignore", lines, v)
